@@ -115,6 +115,20 @@ Theorem C15_lab_roundtrip : forall r g b, 0 <= r <= 1 -> 0 <= g <= 1 -> 0 <= b <
 Proof. exact lab_rt. Qed.
 Theorem C15_lab_f_matches_cie : forall t, 0 <= t <= 1.1 -> Rabs (lab_f t - cie_f t) <= 1 / 10 ^ 15.
 Proof. exact lab_f_cie. Qed.
+(* the assembled conversion is the published CIE 1976 formula L* = 116 f(Y/Yn) - 16, a* = 500 (f(X/Xn) - f(Y/Yn)),
+   b* = 200 (f(Y/Yn) - f(Z/Zn)) of the pixel's XYZ, relative to the code's white, which is D65 *)
+Theorem C15_lab_matches_cie : forall r g b, 0 <= r <= 1 -> 0 <= g <= 1 -> 0 <= b <= 1 ->
+  let X := lab_X (to_lin r) (to_lin g) (to_lin b) in
+  let Y := lab_Y (to_lin r) (to_lin g) (to_lin b) in
+  let Z := lab_Z (to_lin r) (to_lin g) (to_lin b) in
+  Rabs (lab_L r g b - cie_L X Y Z (1 / lab_wx) 1 (1 / lab_wz)) <= 1 / 10 ^ 12 /\
+  Rabs (lab_a r g b - cie_a X Y Z (1 / lab_wx) 1 (1 / lab_wz)) <= 1 / 10 ^ 12 /\
+  Rabs (lab_b r g b - cie_b X Y Z (1 / lab_wx) 1 (1 / lab_wz)) <= 1 / 10 ^ 12.
+Proof. exact lab_matches_cie. Qed.
+Theorem C15_lab_white_is_d65 :
+  Rabs (1 / lab_wx - 0.95047) <= 5 / 10 ^ 5 /\ Rabs (1 / lab_wz - 1.08883) <= 1 / 10 ^ 4 /\
+  Rabs (lab_xn - 1 / lab_wx) <= 1 / 10 ^ 7 /\ Rabs (lab_zn - 1 / lab_wz) <= 1 / 10 ^ 7.
+Proof. exact lab_white_is_d65. Qed.
 (* every documented image shape [3 x m x n] is read channel-first, batches are accepted (repaired code) *)
 Theorem C15_lab_layout : forall k c m n,
   lab_dispatch [3%Z; m; n] = ChannelFirst /\ lab_dispatch [k; c; m; n] = Batch.
